@@ -2,6 +2,7 @@ package sim
 
 import (
 	"context"
+	"errors"
 	"fmt"
 	"sort"
 	"sync"
@@ -195,13 +196,22 @@ func (s *Sched) RunChoices(choices []int, maxSteps int, filter func([]*Gate) []*
 }
 
 // Proxy returns the gated view of the store for an actor.
-func (s *Sched) Proxy(actor string) *GateState { return &GateState{s: s, actor: actor} }
+func (s *Sched) Proxy(actor string) *GateState {
+	return &GateState{s: s, actor: actor, FailWatchAfter: -1}
+}
 
 // GateState is a state.CoreState whose every call and watch hand-over is a scheduler step.
 type GateState struct {
 	s     *Sched
 	actor string
+	// FailWatchAfter, when >= 0, makes every single-resource or kind watch opened through this proxy fail: after that
+	// many delivered events the next hand-over is an Errored event and nothing follows (as after a buffer overrun or a
+	// broken transport).
+	FailWatchAfter int
 }
+
+// ErrInjectedWatchFailure is the error carried by an injected Errored event.
+var ErrInjectedWatchFailure = errors.New("injected watch failure")
 
 var _ state.CoreState = (*GateState)(nil)
 
@@ -387,8 +397,24 @@ func (g *GateState) Watch(ctx context.Context, p resource.Pointer, ch chan<- sta
 }
 
 func (g *GateState) forward(ctx context.Context, k model.Key, inner <-chan state.Event, ch chan<- state.Event) {
-	for {
+	for n := 0; ; n++ {
 		var ev state.Event
+
+		if g.FailWatchAfter >= 0 && n == g.FailWatchAfter {
+			if !g.s.park(ctx, g.actor, "deliver", k, ":Errored(injected)") {
+				return
+			}
+
+			ev = state.Event{Type: state.Errored, Error: ErrInjectedWatchFailure}
+			g.handover(k, ev, nil)
+
+			select {
+			case <-ctx.Done():
+			case ch <- ev:
+			}
+
+			return
+		}
 
 		select {
 		case <-ctx.Done():
